@@ -52,9 +52,13 @@ def YieldPoint.name : YieldPoint → String
   | .onDisconnect => "onDisconnect"
   | .shouldReplay => "shouldReplay"
 
-/-- ghost marks of `_process_resend`: counter rewound / counter restored -/
+/-- ghost marks (proof bookkeeping, dropped by `runSeq`): `_process_resend` rewound / restored the counter;
+`waive` = the acceptor's Logon reply could not be sent for want of a transport or of a free journal slot
+(AttributeError / DuplicateSeqNoError) and is re-raised only after `disconnect()` (fix a9dbd9f): between the
+consumed number and the re-raised exception the loss is not yet visible in the effects, so nothing is
+claimed about schedules that contain such a failure -/
 inductive Ghost
-  | rewind | restore
+  | rewind | restore | waive
   deriving DecidableEq, Repr, Inhabited
 
 inductive Res (α : Type) where
